@@ -14,7 +14,7 @@ from symex.poly import pall_in, pand, pconcat, peq, pimplies, plen, pnot, por
 
 PROPERTY = "C17"
 BOUNDS = {
-    "quick": {"items": "<= 3 client ranges with solver q in [0,1] (reals)", "offers": "<= 3", "shapes": "13 item/offer shapes x every client order x 2 offer orders", "q_text": "<= 4 characters"},
+    "quick": {"items": "<= 3 client ranges with solver q in [0,1] (reals)", "offers": "<= 3", "shapes": "13 item/offer shapes x every client order x every offer order", "q_text": "<= 4 characters"},
     "thorough": {"items": "<= 4", "offers": "<= 3", "q_text": "<= 5 characters"},
 }
 STUBS = ["codecs.lookup model (CharsetAccept), differentially tested (see C07)"]
@@ -204,7 +204,7 @@ def obligations(tier, seed):
             for nitems in ([3] if quick else [2, 3]):
                 nit = min(nitems, len(shapes[si][0]))
                 for perm in range(len(list(itertools.permutations(range(nit))))):
-                    operms = range(len(list(itertools.permutations(shapes[si][1])))) if not quick else [0, 3 % len(list(itertools.permutations(shapes[si][1])))]
+                    operms = range(len(list(itertools.permutations(shapes[si][1]))))  # every offer order
                     for operm in sorted(set(operms)):
                         out.append({"name": f"best_match[{cls},shape={si},items={nitems},perm={perm},offers={operm}]", "body": "body_best_match",
                                     "params": {"cls": cls, "shape": si, "nitems": nitems, "perm": perm, "operm": operm},
